@@ -294,3 +294,15 @@ CLAIMS["C37"] = (
     "reduced expression evaluated in the environment extended by the replacements in order has the value of its "
     "input",
     "6/C37", TRUSTED, "TLA+ contract (freshness, ordering, denotational faithfulness) + TLC trace validation")
+
+CLAIMS["C39"] = (
+    "model_checking",
+    "TLC enumerates arithmetic expressions (incl. cancelling symbols), undefined functions, the Derivative and Subs "
+    "objects produced by differentiating them, image and condition sets, relationals and piecewise expressions, and "
+    "~170 expanded polynomials in two choices of variable (and in a function symbol); TLC validates free_symbols "
+    "against the definition on the dump (binders: Subs, ImageSet, ConditionSet), has_symbol for five probe symbols, "
+    "function_symbols and atoms<Symbol>/<FunctionSymbol> against the subterms of the matching kind without "
+    "repetition, and coeff by reconstructing the value of the polynomial from the coefficients, none of which may "
+    "mention the variable",
+    "6/C39", TRUSTED + "; coeff is exercised on expanded polynomials only (it is a syntactic query)",
+    "TLA+ structural definitions on dumps + TLC trace validation")
